@@ -122,32 +122,47 @@ theorem cov_of_hints_pinned_msel (lo hi stop : Int) (c : Ctx V) (s : VSel) (r ts
   simp only at this
   omega
 
-/-! ### the function and grouping hints -/
+/-! ### the function, grouping, step and range hints -/
 
-/-- **every selector of every expression is created with the `Func`, `By` and `Grouping` hints the
-reference engine gives it** (`Hints.lean`, `Proofs/HintsProof.lean`): the reference derives them
-from the selector's path of ancestors (`extractFuncFromPath`: the nearest enclosing call or
-aggregation, nothing beyond a binary expression; `extractGroupsFromPath`: the parent only, if it is
-an aggregation); the engine hands a hints value down `newOperator` and rewrites it at calls,
-aggregations, binary expressions and wrappers. By induction over the expression, carrying "the
-hints in hand are what the path walked so far yields". The model of the engine's side is compared
-with the hints the real engine passes to the storage (`hints` oracle, `eng_vs_model`), the model of
-the reference's side with those of the real reference engine (the same oracle compares the two
-engines). -/
-theorem engine_hints_equal_reference_hints {V : Type} (e : Expr V) : engHints Hint.empty e = refHints [] e :=
-  engine_hints_are_reference_hints e
+/-- **every selector of every expression is created with the `Func`, `By`, `Grouping`, `Step` and
+`Range` hints the reference engine gives it** (`Hints.lean`, `Proofs/HintsProof.lean`): the
+reference derives function and grouping from the selector's path of ancestors
+(`extractFuncFromPath`: the nearest enclosing call or aggregation, nothing beyond a binary
+expression; `extractGroupsFromPath`: the parent only, if it is an aggregation), takes `Step` from the
+statement's interval, and takes `Range` from a *mutable* variable (`evalRange` in
+`populateSeries`) that a matrix selector sets and the next vector selector visited consumes and
+resets; the engine hands a hints value down `newOperator`, rewrites function and grouping at calls,
+aggregations, binary expressions and wrappers, and writes the range into its local copy at a matrix
+selector. By induction over the expression, carrying "the hints in hand are what the path walked so
+far yields, their step is the query's, their range is 0, and the reference's `evalRange` is 0". The
+second component says that `evalRange` is 0 again when the traversal ends, i.e. no range leaks from
+one selector to a later one on either side. The model of the engine's side is compared with the
+hints the real engine passes to the storage (`hints` oracle, `eng_vs_model`, all five fields), the
+model of the reference's side with those of the real reference engine (the same oracle compares the
+two engines). -/
+theorem engine_hints_equal_reference_hints {V : Type} (step : Int) (e : Expr V) :
+    refHints step [] 0 e = (engHints (Hint.start step) e, 0) :=
+  engine_hints_are_reference_hints step e
 
-/-- `sum by (a) (rate(m[1m])) + max without (b) (-n)`: the range selector below `rate` gets `rate` and
-no grouping, the selector below the unary minus keeps `max` but loses the grouping -/
+/-- `sum by (a) (rate(m[1m])) + max without (b) (-n)`, step 30 s: the range selector below `rate`
+gets `rate`, no grouping and the range 60000; the selector below the unary minus keeps `max` but
+loses the grouping, and has range 0 (the range of `m[1m]` does not leak to it) -/
 example :
-    engHints Hint.empty (.bin "+" false ⟨.oneToOne, false, [], []⟩
+    engHints (Hint.start 30000) (.bin "+" false ⟨.oneToOne, false, [], []⟩
       (.agg "sum" false ["a"] (.call "rate" [.msel ⟨[⟨.eq, "__name__", "m"⟩], 0, none, none⟩ 60000]))
       (.agg "max" true ["b"] (.neg (.vsel ⟨[⟨.eq, "__name__", "n"⟩], 0, none, none⟩))) : Expr Int)
-      = [⟨"rate", false, []⟩, ⟨"max", false, []⟩] := by decide
+      = [⟨"rate", false, [], 30000, 60000⟩, ⟨"max", false, [], 30000, 0⟩] := by decide
 
 /-- `sum by (a) (m)`: the immediate operand of the aggregation gets its grouping -/
 example :
-    engHints Hint.empty (.agg "sum" false ["a"] (.vsel ⟨[⟨.eq, "__name__", "m"⟩], 0, none, none⟩) : Expr Int)
-      = [⟨"sum", true, ["a"]⟩] := by decide
+    engHints (Hint.start 1000) (.agg "sum" false ["a"] (.vsel ⟨[⟨.eq, "__name__", "m"⟩], 0, none, none⟩) : Expr Int)
+      = [⟨"sum", true, ["a"], 1000, 0⟩] := by decide
+
+/-- the reference side on the first example: the same hints, and `evalRange` ends at 0 -/
+example :
+    refHints 30000 [] 0 (.bin "+" false ⟨.oneToOne, false, [], []⟩
+      (.agg "sum" false ["a"] (.call "rate" [.msel ⟨[⟨.eq, "__name__", "m"⟩], 0, none, none⟩ 60000]))
+      (.agg "max" true ["b"] (.neg (.vsel ⟨[⟨.eq, "__name__", "n"⟩], 0, none, none⟩))) : Expr Int)
+      = ([⟨"rate", false, [], 30000, 60000⟩, ⟨"max", false, [], 30000, 0⟩], 0) := by decide
 
 end PromqlVerif.C16
